@@ -150,6 +150,7 @@ class FlowStub:
         self.tag = tag
         self.n_draws = 0
         self.max_draws = None
+        self.draws = []
         self.log_prob_calls = []
 
     def log_prob(self, x):
@@ -161,6 +162,9 @@ class FlowStub:
         if self.max_draws is not None and self.n_draws > self.max_draws:
             raise core.PathCut()
         x = sx.sym(f"{self.tag}{self.n_draws}", (int(n), self.d))
+        self.draws.append(x)
+        if getattr(self, "on_draw", None):
+            self.on_draw(x)
         return x, self.f.apply(self.f.Q, x)
 
 
